@@ -75,19 +75,74 @@ def run(ctx):
     for name in sorted(used | attrs):
         ctx.ob("C08.lib-coverage", f"lib.{name}", name in members, "used by a compute function but missing from SympyLib", None, "src/vector/_lib.py",
                sample={"lib_name": name})
+    # meaning of each member, decided by interpreting it on a symbolic expression / a plain number (not by its text)
+    from ..peval import External, FuncVal as _FV, Undecided as _Und
+
+    slib = W.classes.get("SympyLib")
+    if slib is None:
+        raise AnalysisError("anchor class SympyLib missing")
+    EXPR, NUM = Opaque("expr1", "sympyexpr"), Opaque("num1", "real")
+    EXPR2 = Opaque("expr2", "sympyexpr")
+
+    def call_member(name_, args):
+        fnode, cv = W.find_method("SympyLib", name_)
+        inst = Inst(slib, {}, origin="abstract")
+        I = Interp(W)
+        try:
+            return I.call_function(_FV(fnode, cv.module, bound=inst, owner=cv), list(args), {})
+        except PyRaise as e:
+            return ("raise", e.exc)
+        except _Und as e:
+            return ("undecided", str(e))
+
+    def is_call(v, dotted, args):
+        t = v.tag if isinstance(v, Opaque) else None
+        if not (isinstance(t, tuple) and len(t) >= 3 and t[0] in ("call", "extcall")):
+            return False
+        f = t[1]
+        fname = f.name if isinstance(f, External) else str(f)
+        got_args = t[2]
+        kw = t[3] if len(t) > 3 else ()
+        return fname == dotted and not kw and len(got_args) == len(args) and all(a is b for a, b in zip(got_args, args))
+
     for name, fn in members.items():
-        body = [s for s in fn.body if not (isinstance(s, ast.Expr) and isinstance(s.value, ast.Constant))]
-        text = unparse(body[0]) if len(body) == 1 else unparse(fn)
         params = [a.arg for a in fn.args.args][1:]
+        is_prop = any(unparse(d) == "property" for d in fn.decorator_list)
+        msg = ""
         if name in CORRESPONDENCE:
-            want = f"return sympy.{CORRESPONDENCE[name]}({', '.join(params)})"
-        elif name in EXCEPTIONS:
-            want = EXCEPTIONS[name]
+            args = [EXPR, EXPR2][: len(params)]
+            r = call_member(name, args)
+            if not is_call(r, "sympy." + CORRESPONDENCE[name], args):
+                msg = f"SympyLib.{name}({', '.join(params)}) evaluates to {r!r}; expected sympy.{CORRESPONDENCE[name]} of its parameters in order"
+        elif name in ("maximum", "minimum"):
+            r1, r2, r3 = call_member(name, [EXPR, NUM]), call_member(name, [NUM, EXPR]), call_member(name, [EXPR, EXPR2])
+            if not (r1 is EXPR and r2 is EXPR and r3 is EXPR):
+                msg = f"documented deviation: the first argument if it is an expression, else the second; got {r1!r}, {r2!r}, {r3!r} for (expr, number), (number, expr), (expr, expr2)"
+        elif name == "copysign":
+            r = call_member(name, [EXPR, EXPR2])
+            if r is not EXPR:
+                msg = f"documented deviation: copysign(a, b) returns a; got {r!r}"
+        elif name == "nan_to_num":
+            r = call_member(name, [EXPR])
+            if r is not EXPR:
+                msg = f"documented deviation: nan_to_num(a, ...) returns a; got {r!r}"
+        elif name == "isclose":
+            r = call_member(name, [EXPR, EXPR2, NUM, NUM, NUM])
+            if not is_call(r, "sympy.Eq", [EXPR, EXPR2]):
+                msg = f"documented deviation: isclose(a, b, *tolerances) is sympy.Eq(a, b); got {r!r}"
+        elif name == "sign":
+            r = call_member(name, [NUM])
+            if not is_call(r, "numpy.sign", [NUM]):
+                msg = f"documented deviation: sign(a) is numpy.sign(a); got {r!r}"
+        elif name in ("inf", "pi"):
+            fnode, cv = W.find_method("SympyLib", name)
+            body = [s_ for s_ in fnode.body if not (isinstance(s_, ast.Expr) and isinstance(s_.value, ast.Constant))]
+            want_c = {"inf": "sympy.oo", "pi": "sympy.pi"}[name]
+            if not (len(body) == 1 and isinstance(body[0], ast.Return) and unparse(body[0].value) == want_c):
+                msg = f"SympyLib.{name} is `{unparse(body[-1]) if body else None}`; expected {want_c}"
         else:
-            want = None
-        ctx.ob("C08.lib-meaning", f"SympyLib.{name}", want is not None and text == want,
-               f"body `{text}`; expected `{want}`" if want else f"member `{name}` has no frozen SymPy correspondence (body `{text}`): add it after reading",
-               None, f"src/vector/_lib.py:{fn.lineno}", sample={"name": name, "body": text})
+            msg = f"member `{name}` has no frozen SymPy correspondence: add it after reading"
+        ctx.ob("C08.lib-meaning", f"SympyLib.{name}", not msg, msg, None, f"src/vector/_lib.py:{fn.lineno}", sample={"name": name})
     _shim_semantics(ctx, L)
     sf = facts("src/vector/backends/sympy.py", ctx.repo)
     libattr = sf.class_attrs("VectorSympy").get("lib")
